@@ -8,6 +8,7 @@
 -/
 import Hw.Io.XmlLemmas
 import Hw.Io.Base64Lemmas
+import Hw.Io.XmlObjLemmas
 import Hw.Props.C04
 namespace Hw.Props.C05
 open Hw Hw.Xml Hw.Topo
@@ -176,7 +177,74 @@ theorem C05_TopoEquiv_implies_tree_sets {a b : Dump} (h : TopoEquiv a b) : TreeS
 theorem C05_sanitize_idem (s : List Nat) : sanitize (sanitize s) = sanitize s := by
   unfold sanitize; simp [List.filter_filter]
 
+/-! ### (e) the object level: the start tag of `<object>` (v3 format)
+
+  `ObjFields` = what the start tag carries: type, os_index, gp_index, the four sets (+ the topology's allowed sets on the root),
+  name, subtype, the attribute union a0..a5 as harness/dump.h prints it, and the pcidev part of PCI devices / PCI-upstream bridges.
+  OUTSIDE (child elements or derived): infos (`<info>`, covered separately below), page types, userdata, children, the Group /
+  Bridge depth (exported but deliberately ignored by the importer: recomputed by the core), floating point (`pci_link_speed` is
+  carried as the text `%f` printed), the type filter applied after the checks, and v2-format rules.
+  Tie: engine `xmlrt` OBJ lines — for sampled objects of every nolibxml v3 export, the scanned start tag must equal
+  `exportAttrs` of the original object, the object must be `Valid`, and `importAttrs` of the list must equal the reloaded object. -/
+
+open Hw.XmlObj in
+/-- P0 (object level).  Importing (hwloc__xml_import_object_attr + the checks of hwloc__xml_import_object) the attribute list
+    that hwloc__xml_export_object_contents writes for a valid object gives the object back; `normalise` = the documented
+    safestrdup filtering of name / subtype and the two depths the importer leaves to the core -/
+theorem C05_obj_attrs_roundtrip (c : XmlObj.Ctx) (o : XmlObj.ObjFields) (hv : XmlObj.Valid c o = true) :
+    XmlObj.importAttrs c (XmlObj.exportAttrs c.root o) = .ok (XmlObj.normalise o) := XmlObj.importAttrs_exportAttrs c o hv
+
+/-- every exported attribute has a name over `[a-z_]` and a NUL-free value (the hypotheses of `C05_scan_render_attrs`) -/
+theorem C05_obj_export_wellformed (c : XmlObj.Ctx) (o : XmlObj.ObjFields) (hv : XmlObj.Valid c o = true) :
+    ∀ a ∈ XmlObj.exportAttrs c.root o, (∀ x ∈ a.1, isAttrNameChar x = true) ∧ (∀ x ∈ a.2, x ≠ 0) :=
+  XmlObj.exportAttrs_ok c o hv
+
+/-- P0 (object level, composed with the scanner).  Rendering the start tag of any valid object with the nolibxml exporter
+    (`new_prop` for each attribute), scanning it with the nolibxml `next_attr` loop and importing the result yields the object -/
+theorem C05_obj_scan_render_roundtrip (c : XmlObj.Ctx) (o : XmlObj.ObjFields) (hv : XmlObj.Valid c o = true) (fuel : Nat)
+    (hf : (XmlObj.exportAttrs c.root o).length < fuel) :
+    XmlObj.importAttrs c (scanAttrs fuel (renderAttrs (XmlObj.exportAttrs c.root o))) = .ok (XmlObj.normalise o) :=
+  XmlObj.import_scan_render_export c o hv fuel hf
+
+/-- the value formats one by one: sets (hwloc format), type strings, and the three sscanf formats of PCI / bridge attributes -/
+theorem C05_obj_set_value_roundtrip (m : Nat) : XmlObj.setScan (XmlObj.setText m) = .ok m := XmlObj.setScan_setText m
+theorem C05_obj_type_value_roundtrip (t : Nat) (h : t < 20) : XmlObj.typeScan (TypeStr.typeString t) = some t :=
+  XmlObj.typeScan_typeString t h
+theorem C05_obj_pci_busid_roundtrip (d bu dv f : Nat) (hb : bu < 256) (hd : dv < 256) (hf : f < 16) :
+    XmlObj.scanBusid (hexPad 4 d ++ [58] ++ hexPad 2 bu ++ [58] ++ hexPad 2 dv ++ [46] ++ hexPad 1 f) = some (d, bu, dv, f) :=
+  XmlObj.scanBusid_ok d bu dv f hb hd hf
+theorem C05_obj_bridge_pci_roundtrip (d s1 s2 : Nat) (h1 : s1 < 256) (h2 : s2 < 256) :
+    XmlObj.scanBridgePci (hexPad 4 d ++ XmlObj.b ":[" ++ hexPad 2 s1 ++ [45] ++ hexPad 2 s2 ++ [93]) = some (d, s1, s2) :=
+  XmlObj.scanBridgePci_ok d s1 s2 h1 h2
+
+/-- `<info name value/>` child elements (object, topology and cpukind infos): the pair comes back, both strings filtered -/
+theorem C05_info_roundtrip (n v : List Nat) :
+    XmlObj.importInfo (XmlObj.exportInfo (n, v)) = .pair (sanitize n, sanitize v) := XmlObj.importInfo_exportInfo n v
+theorem C05_info_scan_render_roundtrip (n v : List Nat) (fuel : Nat) (hf : 2 < fuel) :
+    XmlObj.importInfo (scanAttrs fuel (renderAttrs (XmlObj.exportInfo (n, v)))) = .pair (sanitize n, sanitize v) :=
+  XmlObj.info_scan_render n v fuel hf
+
 /-! ### non-vacuity -/
+
+-- valid objects of each attribute-union shape (the engine also checks `Valid` on every sampled real object)
+example : XmlObj.Valid { root := false, parentType := 3 }
+    { type := 4, osidx := some 5, gp := 17, cpuset := some 32, ccpuset := some 32, nodeset := some 1, cnodeset := some 1, allowed := none,
+      name := none, subtype := none, attrs := [0, 0, 0, 0, 0, 0], pci := none } = true := by decide
+example : XmlObj.Valid { root := true }
+    { type := 0, osidx := some 0, gp := 1, cpuset := some 255, ccpuset := some 255, nodeset := some 3, cnodeset := some 3, allowed := some (255, 3),
+      name := some (str "caf\u00e9<&>"), subtype := none, attrs := [0, 0, 0, 0, 0, 0], pci := none } = true := by decide
+example : XmlObj.Valid { root := false, parentType := 1 }
+    { type := 6, osidx := none, gp := 62, cpuset := some 64, ccpuset := some 64, nodeset := some 1, cnodeset := some 1, allowed := none,
+      name := none, subtype := none, attrs := [524288, 2, 64, -1, 0, 0], pci := none } = true := by decide
+example : XmlObj.Valid { root := false, parentType := 16, parentHasSets := false }
+    { type := 17, osidx := none, gp := 90, cpuset := none, ccpuset := none, nodeset := none, cnodeset := none, allowed := none,
+      name := none, subtype := none, attrs := [0, 3, 0, 1, 0x0200, 0x808610d3],
+      pci := some { domain := 0, bus := 3, dev := 0, func := 1, classId := 0x0200, vendor := 0x8086, device := 0x10d3, subvendor := 0x8086,
+                    subdevice := 0xa01f, revision := 0, progIf := 0, linkspeed := str "0.250000" } } = true := by decide
+example : XmlObj.Valid { root := false, parentType := 0 }
+    { type := 16, osidx := none, gp := 80, cpuset := none, ccpuset := none, nodeset := none, cnodeset := none, allowed := none,
+      name := none, subtype := none, attrs := [0, 1, 0, 0, 0, 255], pci := none } = true := by decide
+
 
 -- "a<b&c" -> a&lt;b&amp;c  and back, scanning stops on the quote
 example : escape [97, 60, 98, 38, 99] = [97, 38, 108, 116, 59, 98, 38, 97, 109, 112, 59, 99] := by decide
